@@ -112,6 +112,7 @@ static std::pair<long, int> run_history(const uint8_t* data, size_t size, bool c
     // only the observers (spy, bystander) read late
     if (rare(f, 5) && total > nclients) { int j = nclients + (int)pick(f, total - nclients); lazy[j] = !lazy[j]; h.log.push_back(std::string("client") + std::to_string(j) + (lazy[j] ? " stops reading" : " resumes reading")); }
     int bsize = rare(f, 2) ? 2 + (int)pick(f, 3) : 1;
+    for (int j = 0; j < total; j++) if (lazy[j] && h.open(j)) bsize = 1;   // while somebody reads late, one operation at a time: otherwise the belief set grows with every ambiguous batch
     std::vector<Op> ops;
     for (int b = 0; b < bsize; b++) {
       int c = (int)pick(f, nclients);
@@ -127,7 +128,7 @@ static std::pair<long, int> run_history(const uint8_t* data, size_t size, bool c
     for (int j = 0; j < total; j++) if (h.open(j) && !lazy[j]) { got[j] = h.bus.drain(j); }
     // belief-set update: every candidate state x every serialisation that respects per-client order
     std::vector<Cand> next; std::vector<std::string> seen;
-    std::string first_diff; int tried = 0;
+    std::string first_diff; int tried = 0; bool overflow = false;
     for (auto& cand : cands) {
       std::vector<size_t> perm(ops.size()); for (size_t i = 0; i < perm.size(); i++) perm[i] = i;
       do {
@@ -148,9 +149,10 @@ static std::pair<long, int> run_history(const uint8_t* data, size_t size, bool c
         }
         if (!all) { if (first_diff.empty()) first_diff = diff; continue; }
         std::string fp = n.m.fingerprint(); for (int j = 0; j < total; j++) for (auto& g : n.pending[j]) { fp += "|" + std::to_string(j) + ":"; for (auto& e : g) fp += e.show(); }
-        if (std::find(seen.begin(), seen.end(), fp) == seen.end() && next.size() < 48) { seen.push_back(fp); next.push_back(n); }
+        if (std::find(seen.begin(), seen.end(), fp) == seen.end()) { seen.push_back(fp); if (next.size() < 64) next.push_back(n); else overflow = true; }
       } while (std::next_permutation(perm.begin(), perm.end()));
     }
+    if (overflow) { if (count) stats_class("belief-overflow"); return h.finish(); }   // too many indistinguishable states: no verdict for the rest of this history
     if (next.empty()) h.fail("no-serialisation-explains-observation", "none of the " + std::to_string(tried) + " (state, serialisation) candidates explains what the clients received; first difference:\n" + first_diff);
     for (int j = 0; j < total; j++) { if (h.open(j) && !lazy[j] && h.bus.client(j).eof && next[0].m.conns[j].alive) h.fail("disconnected", "client" + std::to_string(j) + " was disconnected by the bus"); Bus::free_frames(got[j]); }
     cands = next;
